@@ -492,6 +492,7 @@ class StorageReplayer:
             tb = frames[-1]
             chain = ' < '.join(f.name for f in frames[::-1][:5])
             return ['query raised %s at %s:%s (%s) [%s]' % (type(ex).__name__, os.path.basename(tb.filename), tb.name, str(ex)[:120], chain)]
+        real = {k_: v for k_, v in real.items() if k_ in mo} if self.opts.get('only_asked') else real
         if self.kind != 'file':
             mo = dict(mo)
             mo.pop('ulog', None)
